@@ -94,6 +94,8 @@ func c06Cases(level int) []SCase {
 		{"string-date,pat=^2024", J{"type": "string", "format": "date", "pattern": "^2024"}},
 		{"string-ipv4,min=12", J{"type": "string", "format": "ipv4", "minLength": 12}},
 		{"string,pat=^a<CR>b$", J{"type": "string", "pattern": "^a\rb$"}},
+		{"string,pat=^a<LF>b$", J{"type": "string", "pattern": "^a\nb$"}},
+		{"string,pat=^a<LF><LF>[bc]$", J{"type": "string", "pattern": "^a\n\n[bc]$", "maxLength": 4}},
 	} {
 		l := sp.l
 		ax := map[string]string{"pos": "props", "leaf": sp.name}
